@@ -12,6 +12,10 @@ def run(c):
     kw = dict(kw)
     if kw.get("calls") == "normal_op":
         kw["calls"] = M.normal_op
+    if kw.get("should_quote") == "always":
+        kw["should_quote"] = lambda s: True
+    if kw.get("should_quote") == "never":
+        kw["should_quote"] = lambda s: False
     try:
         r = getattr(M, fn)(arg, **kw)
         return ["ok", json.loads(json.dumps(r, default=lambda o: "<<%s>>" % type(o).__name__))]
